@@ -103,6 +103,19 @@ def make_cases(run, scratch):
         for ty in (per_type if not quick else rng.sample(per_type, 4)):
             cases.append(("linux:%s|filter %d 1" % (os.path.basename(tb), ty),
                           ["env HWLOC_COMPONENTS linux,stop", "env HWLOC_THISSYSTEM 0", "env HWLOC_CPUID_PATH", "filter %d 1" % ty, "src fsroot " + d], "linux-type-none"))
+    # I/O type filters on the snapshots that have a PCI bus: every (Bridge, PCIDevice) pair of {ALL, NONE, IMPORTANT}
+    # with OSDevice/Misc drawn (all 27 triples in the thorough tier).  Seeded change C18b: the Linux PCI discovery
+    # tested the PCIDevice filter where it should test the Bridge filter.
+    for tb in S.snapshots("linux"):
+        if not any(k in os.path.basename(tb) for k in ("pci", "+8ve", "nvidiagpu", "dax+nvme")):
+            continue
+        d = scratch.unpack(tb)
+        for fb in (0, 1, 3):
+            for fp in (0, 1, 3):
+                for fo in ((rng.choice((0, 1, 3)),) if quick else (0, 1, 3)):
+                    cfg = ["filter 16 %d" % fb, "filter 17 %d" % fp, "filter 18 %d" % fo, "filter 19 %d" % rng.choice((0, 1))]
+                    cases.append(("linux:%s|%s" % (os.path.basename(tb), ";".join(cfg)),
+                                  ["env HWLOC_COMPONENTS linux,stop", "env HWLOC_THISSYSTEM 0", "env HWLOC_CPUID_PATH"] + cfg + ["src fsroot " + d], "linux-io-filters"))
     if quick:
         x86 = rng.sample(x86, min(6, len(x86)))
     for tb in lin:
@@ -125,7 +138,7 @@ def trace_inserts(name, kind):
     """Insertion tracing prints the whole raw tree around every insertion (quadratic): small inputs only."""
     if kind in ("synthetic", "synthetic2", "corpus"):
         return True
-    if kind in ("linux", "x86", "x86-type-none", "linux-type-none"):
+    if kind in ("linux", "x86", "x86-type-none", "linux-type-none", "linux-io-filters"):
         m = re.match(r"\w+:(\d+)", name)
         return bool(m) and int(m.group(1)) <= 32
     return False
